@@ -29,13 +29,15 @@ class ProjectionError(Exception):
     pass
 
 
-def rep(dv, metric):
-    """float distances -> represented ints (raises if not on the lattice)"""
+def rep(dv, metric, scale=1.0):
+    """float distances -> represented ints (raises if not on the lattice); the data were the lattice points
+    multiplied by `scale`"""
     out = []
     for d in np.asarray(dv, dtype=float).reshape(-1):
         if np.isinf(d):
             out.append(INF)
             continue
+        d = d / scale
         v = d * d if metric == "l2sq" else d
         r = int(round(v))
         if abs(v - r) > 1e-6 * max(1.0, abs(v)):
@@ -76,8 +78,8 @@ class _PamHandler(logging.Handler):
             pass
 
 
-def _costN(c, n, metric):
-    v = c * n
+def _costN(c, n, metric, scale=1.0):
+    v = c / (scale * scale) * n
     r = int(round(v))
     if abs(v - r) > 1e-6 * max(1.0, abs(v)):
         return -1
@@ -92,19 +94,45 @@ def record(run):
     metric = run["metric"]
     pts = run["pts"]
     n = len(pts)
-    X = np.array(pts, dtype=run.get("dtype", "float64")).reshape(n, -1)
+    # the algorithms are equivariant under scaling of the data (distances and radii scale along): the lattice
+    # points are multiplied by a factor that rotates over the runs -- 1, a tiny one (where absolute float
+    # tolerances would bite) and a large one; integer element types use integer factors
+    dtn = run.get("dtype", "float64")
+    scale = run.get("scale")
+    if scale is None:
+        rot = (sum(int(abs(v)) for p_ in pts for v in p_) + 2 * n + run["k"] + run.get("sweeps", 0)) % 3
+        # powers of two: every floating-point operation of the run then scales exactly, so the scaled run makes
+        # bit-for-bit the decisions of the unscaled one (no new ties or tie-breaks at guard comparisons)
+        scale = ((1.0, 2.0 ** -30, 4096.0) if dtn.startswith("float") else (1.0, 1.0, 1024.0))[rot]
+    Xc = (np.array(pts, dtype="float64").reshape(n, -1) * scale).astype(dtn)
+    # memory layout of the data rotates over the runs: C-ordered, Fortran-ordered, or a strided view into a larger
+    # junk-filled buffer (the property quantifies over data sets, not over their layout)
+    lay = run.get("layout")
+    if lay is None:
+        lay = ("C", "F", "view")[(int(np.abs(Xc).sum()) + n + run["k"] + len(run.get("init", []))) % 3]
+    if lay == "F":
+        X = np.asfortranarray(Xc)
+    elif lay == "view":
+        big = np.full((2 * n + 1, 2 * Xc.shape[1] + 1), 77, dtype=Xc.dtype)
+        big[1::2, 1::2] = Xc
+        X = big[1::2, 1::2]
+    else:
+        X = Xc
     X0 = X.copy()
     m = metric_arg(metric)
     events = []
     tr = {"pts": [list(p) for p in pts], "metric": metric, "algo": run["algo"], "k": run["k"], "cut": run["cut"],
           "ti": bool(run.get("ti", False)), "init": [i + 1 for i in run.get("init", [])],
           "sweeps": run.get("sweeps", 0), "props": [i + 1 for i in (run.get("props") or [])], "events": events,
-          "form": run.get("form", "function"), "dtype": run.get("dtype", "float64"), "seed": -1 if run.get("seed") is None else run.get("seed")}
-    cutf = None if run["cut"] == 0 else (float(np.sqrt(run["cut"])) if metric == "l2sq" else float(run["cut"]))
+          "form": run.get("form", "function"), "dtype": run.get("dtype", "float64"), "layout": lay, "scale": "%g" % scale, "seed": -1 if run.get("seed") is None else run.get("seed")}
+    if run.get("initXY"):
+        tr["initXY"] = [list(q) for q in run["initXY"]]
+        tr["init"] = [0] * len(run["initXY"])
+    cutf = None if run["cut"] == 0 else (float(np.sqrt(run["cut"])) if metric == "l2sq" else float(run["cut"])) * scale
     kk = None if run["k"] == 0 else run["k"]
 
     def state(ci, a, d):
-        return {"ctrIdx": _idx(ci), "asg": _asg(a), "dist": rep(d, metric)}
+        return {"ctrIdx": _idx(ci), "asg": _asg(a), "dist": rep(d, metric, scale)}
 
     first = {"kc": True, "pam": True}
     orig_iter = kc_mod._kcenters_iteration
@@ -138,16 +166,18 @@ def record(run):
         if not coarse:
             for e in props:
                 e = dict(e)
-                e["oldN"] = _costN(e.pop("oc"), n, metric)
-                e["newN"] = _costN(e.pop("nc"), n, metric)
+                e["oldN"] = _costN(e.pop("oc"), n, metric, scale)
+                e["newN"] = _costN(e.pop("nc"), n, metric, scale)
                 events.append(e)
         events.append(dict(state(mi, a2, d2), ev="sweep", coarse=coarse,
-                           ctrXY=[[int(round(float(v))) for v in np.asarray(c).reshape(-1)] for c in coords]))
+                           ctrXY=[[int(round(float(v) / scale)) for v in np.asarray(c).reshape(-1)] for c in coords]))
         return out
 
     def call():
         algo, form = run["algo"], run.get("form", "function")
         init = None if not run.get("init") else X[run["init"]]
+        if run.get("initXY"):          # initial centers that are not frames of the data (k-centers only)
+            init = (np.array(run["initXY"], dtype="float64").reshape(len(run["initXY"]), -1) * scale).astype(dtn)
         if algo == "kcenters":
             if form == "estimator":
                 est = KCenters(m, n_clusters=kk, cluster_radius=cutf)
@@ -190,7 +220,7 @@ def record(run):
     def result_state(res):
         ci = res.center_indices
         st = state(ci, res.assignments, res.distances)
-        st["ctrXY"] = [[int(round(float(v))) for v in np.asarray(c, dtype=float).reshape(-1)] for c in res.centers]
+        st["ctrXY"] = [[int(round(float(v) / scale)) for v in np.asarray(c, dtype=float).reshape(-1)] for c in res.centers]
         return st
 
     kc_mod._kcenters_iteration = w_iter
